@@ -124,7 +124,8 @@ func newPreCancelled(kind string) *realCtx {
 // ---------------------------------------------------------------------------
 // Go functions given to the programs: tick (identity, counts its calls, can
 // cancel the context from inside the n-th call), ticks (an endless native
-// iterator doing the same in its Next) and an input iterator.
+// iterator doing the same in its Next) and an endless input iterator (0, 1,
+// ...) whose Next counts as a tick as well.
 
 type holder struct {
 	ticks    int
@@ -159,6 +160,7 @@ func (it *tickIter) Next() (any, bool) {
 type inIter struct{ h *holder }
 
 func (it inIter) Next() (any, bool) {
+	it.h.tick()
 	v := it.h.inputs
 	it.h.inputs++
 	return v, true
